@@ -10,9 +10,12 @@ package main
 //       | {…,"type":"REVERTED_TRANSACTION","revertedId":n,"tx":TX}
 //       | {…,"type":"SET_METADATA","targetType":"ACCOUNT|TRANSACTION","targetId":addr|n,"metadata":{k:v}}
 //       | {…,"type":"DELETE_METADATA","targetType":…,"targetId":…,"key":k}
-//   TX  = {"id":n,"postings":[{"source","destination","asset","amount":"dec"}],"metadata":{k:v},"timestamp":µs,"reference":S}
+//   TX  = {"id":n,"postings":[{"source","destination","asset","amount":"dec"}],"metadata":{k:v},"timestamp":µs,"reference":S,"tz":minutes?}
+//         "tz": the client wrote the timestamp as RFC 3339 text with that UTC offset; the text goes through ledger.ParseTime
 // output: {"ledgers":[{"name":L,"balances":[{"account","asset","balance":"dec"}],"accounts":[{"address","metadata"}],
-//          "txs":[{"id","found",…}],"byRef":[{"ref","id"}],"byIk":[{"ik","id"}],"lastLog":{"id","type"}|null,"lastTx":id|null}]}
+//          "txs":[{"id","found",…}],"byRef":[{"ref","id"}],"byIk":[{"ik","id"}],"lastLog":{"id","type"}|null,"lastTx":id|null}],
+//          "storedTimestamps":[{"ledger","id","tz","text"}]}   for every transaction with "tz": the timestamp text inside the payload
+//          that ledgerstore.InsertLogs would COPY into logs.data (json.Marshal of the log's Data)
 
 import (
 	"context"
@@ -78,8 +81,13 @@ func svTx(v any) *ledger.Transaction {
 	}
 	tx.Metadata = svMeta(j["metadata"])
 	tx.Timestamp = svTime(svInt(j["timestamp"]))
-	if tz, ok := j["tz"]; ok && svInt(tz) != 0 { // the client wrote the instant with a UTC offset (ParseTime keeps it)
-		tx.Timestamp = ledger.Time{Time: tx.Timestamp.Time.In(time.FixedZone("", int(svInt(tz))*60))}
+	if tz, ok := j["tz"]; ok && svInt(tz) != 0 { // the client wrote the instant with a UTC offset: the text goes through the real ParseTime
+		text := tx.Timestamp.Time.In(time.FixedZone("", int(svInt(tz))*60)).Format(time.RFC3339Nano)
+		parsed, err := ledger.ParseTime(text)
+		if err != nil {
+			panic("harness: ParseTime(" + text + "): " + err.Error())
+		}
+		tx.Timestamp = parsed
 	}
 	tx.Reference, _ = j["reference"].(string)
 	return tx
